@@ -104,6 +104,10 @@ type Interp struct {
 	harnessFn map[*ssa.Function]bool
 	totalSteps int64
 	mapOrder  bool
+	known     map[*Term]bool
+	concKnown map[*Term]uint64
+	substGen  int
+	substMemo map[*Term]*Term
 	mangledNames map[*ssa.Function]string
 }
 
@@ -191,7 +195,7 @@ func (in *Interp) siteID() string {
 		if i == len(fr)-1 && len(parts) > 0 {
 			parts = append(parts, f.fn.Name())
 		} else {
-			parts = append(parts, f.fn.Name()+"`"+in.srcLine(f)+"`")
+			parts = append(parts, f.fn.Name()+"`"+in.srcLine(f, i < len(fr)-1)+"`")
 		}
 	}
 	if len(parts) == 0 {
@@ -203,10 +207,13 @@ func (in *Interp) siteID() string {
 	return strings.Join(parts, ">")
 }
 
-func (in *Interp) srcLine(f *Frame) string {
+func (in *Interp) srcLine(f *Frame, caller bool) string {
 	pos := token.NoPos
 	if f.block != nil {
 		ip := f.ip
+		if caller && ip > 0 {
+			ip-- // the call instruction itself (ip was advanced when the callee frame was pushed)
+		}
 		if ip >= len(f.block.Instrs) {
 			ip = len(f.block.Instrs) - 1
 		}
@@ -694,7 +701,7 @@ func (in *Interp) binop(op token.Token, a, b Value, ta, tb types.Type) Value {
 		case token.MUL:
 			return tc.Bin(OpMul, x, y)
 		case token.QUO, token.REM:
-			in.vc(tc.Eq(y, tc.Const(0, y.w)), "PANIC", "divzero@"+in.siteID(), "integer divide by zero at "+in.where())
+			in.vcSite(tc.Eq(y, tc.Const(0, y.w)), "divzero", "integer divide by zero")
 			if op == token.QUO {
 				if signed {
 					return tc.Bin(OpSDiv, x, y)
@@ -716,7 +723,7 @@ func (in *Interp) binop(op token.Token, a, b Value, ta, tb types.Type) Value {
 		case token.SHL, token.SHR:
 			_, ysigned, _ := isIntType(tb)
 			if ysigned {
-				in.vc(tc.Bin(OpSlt, y, tc.Const(0, y.w)), "PANIC", "negshift@"+in.siteID(), "negative shift amount at "+in.where())
+				in.vcSite(tc.Bin(OpSlt, y, tc.Const(0, y.w)), "negshift", "negative shift amount")
 			}
 			// bring the shift count to x's width, saturating
 			var sh *Term
@@ -989,7 +996,7 @@ func (in *Interp) makeSlice(elem types.Type, ln, cp *Term) Value {
 	tc := in.tc
 	esz := in.lay.of(elem).n
 	zero64 := tc.Const(0, 64)
-	in.vc(tc.Or(tc.Bin(OpSlt, ln, zero64), tc.Bin(OpSlt, cp, ln)), "PANIC", "makeslice@"+in.siteID(), "makeslice: len out of range at "+in.where())
+	in.vcSite(tc.Or(tc.Bin(OpSlt, ln, zero64), tc.Bin(OpSlt, cp, ln)), "makeslice", "makeslice: len out of range")
 	in.noteAlloc(tc.Bin(OpMul, cp, tc.Const(uint64(in.sizeofApprox(elem)), 64)))
 	if !cp.IsConst() {
 		// symbolic size: concretise when the feasible set is small, else lazy object
@@ -1075,7 +1082,7 @@ func (in *Interp) boundsVC(idx, n *Term, incl bool, what string) {
 	} else {
 		bad = tc.Bin(OpUle, n, idx)
 	}
-	in.vc(bad, "PANIC", "bounds@"+in.siteID(), what+" out of range at "+in.where())
+	in.vcSite(bad, "bounds", what+" out of range")
 }
 
 func (in *Interp) to64(t *Term, typ types.Type) *Term {
@@ -1418,4 +1425,12 @@ func decodeRune(b []byte) (rune, int) {
 		return r, n
 	}
 	return 0xFFFD, 1
+}
+
+// vcSite: panic VC whose id/message (source-text based) are only computed when needed.
+func (in *Interp) vcSite(bad *Term, tag, msg string) {
+	if bad.IsConst() && bad.k == 0 {
+		return
+	}
+	in.vcLazy(bad, "PANIC", func() (string, string) { return tag + "@" + in.siteID(), msg + " at " + in.where() })
 }
